@@ -157,9 +157,34 @@ let () =
       | "pair" :: rest -> print_endline (run_pair zlb_recv rest)
       | "disp" :: rest -> print_endline (run_disp zlb_recv rest)
       | "full" :: rest -> print_endline (run_full rest)
+      | ["rws"; role; w; k; a] ->
+        (* establishment with an advertised Receive Window Size (see the dispatch harness).
+           repaired: the window is narrowed to the advertised value (4 when absent) as soon as the peer's AVPs are
+           known; defective: it stays at the 16 of runner.go startTunnelRunner *)
+        let adv = if w = "-" then 4 else ios w in
+        let setw e = if zlb_recv then e else fst (ep_setwin e (zi adv)) in
+        let data ns nr = { k_body = Some (zi 1); k_sid = Z0; k_ns = zi ns; k_nr = zi nr } in
+        let del e ns nr = fst (ep_deliver false e (data ns nr) Z0) in
+        let sub e = fst (ep_submit e (zi 1) Z0 Z0) in
+        let e0 = new_endpoint Z0 Z0 Z0 Z0 (zi 16) Z0 Z0 in
+        let e =
+          if role = "lns" then begin
+            let e = ref (sub (del (setw e0) 0 0)) in
+            e := del !e 1 1;
+            for j = 0 to ios k - 1 do
+              e := sub (del !e (2 + j) (1 + min j (ios a)))
+            done; !e end
+          else sub (sub (setw (del (sub e0) 0 1))) in
+        let seen = ref [] in
+        List.iter (fun q -> if q.k_body <> None && not (List.mem (iz q.k_ns) !seen) then seen := !seen @ [iz q.k_ns]) e.e_sent;
+        let c = e.e_ch in
+        Printf.printf "ns=%s infl=%d cw=%d ss=%d\n" (String.concat "." (List.map string_of_int !seen))
+          (inflight c.c_q) (iz c.c_cwnd) (iz c.c_ssth)
       | ["sccrq"; ns; nr] ->
         (* dispatch.go:139-169: fresh channel (PeerRWS 16), Recv(h.Ns, h.Nr) with the result ignored, Send(SCCRP) *)
         let e = new_endpoint Z0 Z0 Z0 Z0 (zi 16) Z0 Z0 in
+        (* the harness's SCCRQ advertises a Receive Window Size of 4 *)
+        let e = if zlb_recv then e else fst (ep_setwin e (zi 4)) in
         let p = { k_body = Some (zi 1); k_sid = Z0; k_ns = zi (ios ns); k_nr = zi (ios nr) } in
         let (e1, o1) = ep_deliver zlb_recv e p Z0 in
         let (e2, o2) = ep_submit e1 (zi 1) Z0 Z0 in
